@@ -266,7 +266,7 @@ fn gen_schema(p: &mut String, s: &Schema) {
     let _ = writeln!(p, "struct {f}Row {{ {} }}\n", row_decl.join(", "));
     let row_of = |var: &str| format!("{f}Row {{ {} }}", s.keys.iter().chain(s.vals.iter()).map(|(n, _)| format!("{n}: {var}.{n}")).collect::<Vec<_>>().join(", "));
     let opt_row = |var: &str| format!("match {var} {{ Some(f) => Some({}) None => None }}", row_of("f"));
-    let mut obs = vec!["tag int".to_string(), format!("r option[struct {f}Row]"), "e bool".to_string()];
+    let mut obs = vec!["tag int".to_string(), "pt int".to_string(), format!("r option[struct {f}Row]"), "e bool".to_string()];
     for l in LIMITS {
         obs.push(format!("c{l} int"));
         obs.push(format!("al{l} bool"));
@@ -277,26 +277,28 @@ fn gen_schema(p: &mut String, s: &Schema) {
     obs.push("ae bool".to_string());
     obs.push("ac int".to_string());
     let _ = writeln!(p, "effect Obs{f} {{ {} }}\n", obs.join(", "));
-    let _ = writeln!(p, "effect Visit{f} {{ tag int, f struct {f}Row }}\n");
+    let _ = writeln!(p, "effect Visit{f} {{ tag int, pt int, f struct {f}Row }}\n");
 
     for (eph, cpre, apre) in [(true, "Q", "q"), (false, "P", "p")] {
         let ephemeral = if eph { "ephemeral " } else { "" };
         let attrs = if eph { "" } else { "    attributes { priority: 0 }\n" };
         // visit command for map
-        let _ = writeln!(p, "{ephemeral}command {cpre}V{f} {{\n{attrs}    fields {{ tag int, f struct {f}Row }}");
+        let _ = writeln!(p, "{ephemeral}command {cpre}V{f} {{\n{attrs}    fields {{ tag int, pt int, f struct {f}Row }}");
         p.push_str(SEAL_OPEN);
-        let _ = writeln!(p, "    policy {{ finish {{ emit Visit{f} {{ tag: this.tag, f: this.f }} }} }}\n}}\n");
+        let _ = writeln!(p, "    policy {{ finish {{ emit Visit{f} {{ tag: this.tag, pt: this.pt, f: this.f }} }} }}\n}}\n");
         for sh in shapes(s) {
             let params = shape_params(s, &sh);
             let mut fields = vec![("tag".to_string(), Ty::Int)];
             fields.extend(params.iter().cloned());
+            let mut cfields = vec![("tag".to_string(), Ty::Int), ("pt".to_string(), Ty::Int)];
+            cfields.extend(params.iter().cloned());
             let lit_this = literal(s, &sh, "this.");
             let lit_arg = literal(s, &sh, "");
             let name = format!("{cpre}{f}_{}", sh.suffix());
-            let _ = writeln!(p, "{ephemeral}command {name} {{\n{attrs}    fields {{ {}, ar option[struct {f}Row], ae bool, ac int }}", fields_decl(&fields));
+            let _ = writeln!(p, "{ephemeral}command {name} {{\n{attrs}    fields {{ {}, ar option[struct {f}Row], ae bool, ac int }}", fields_decl(&cfields));
             p.push_str(SEAL_OPEN);
             let _ = writeln!(p, "    policy {{\n        let r0 = query {lit_this}\n        let r = {}\n        let e = exists {lit_this}", opt_row("r0"));
-            let mut emit = vec!["tag: this.tag".to_string(), "r: r".to_string(), "e: e".to_string()];
+            let mut emit = vec!["tag: this.tag".to_string(), "pt: this.pt".to_string(), "r: r".to_string(), "e: e".to_string()];
             for l in LIMITS {
                 let _ = writeln!(p, "        let c{l} = count_up_to {l} {lit_this}\n        let al{l} = at_least {l} {lit_this}\n        let am{l} = at_most {l} {lit_this}\n        let ex{l} = exactly {l} {lit_this}");
                 for n in ["c", "al", "am", "ex"] {
@@ -311,12 +313,208 @@ fn gen_schema(p: &mut String, s: &Schema) {
             let args = fields.iter().map(|(n, _)| format!("{n}: {n}")).collect::<Vec<_>>().join(", ");
             let _ = writeln!(
                 p,
-                "{ephemeral}action {apre}_{lf}_{}({}) {{\n    let ar0 = query {lit_arg}\n    let ar = {}\n    let ae = exists {lit_arg}\n    let ac = count_up_to 3 {lit_arg}\n    publish {name} {{ {args}, ar: ar, ae: ae, ac: ac }}\n}}",
+                "{ephemeral}action {apre}_{lf}_{}({}) {{\n    let ar0 = query {lit_arg}\n    let ar = {}\n    let ae = exists {lit_arg}\n    let ac = count_up_to 3 {lit_arg}\n    publish {name} {{ {args}, pt: 0, ar: ar, ae: ae, ac: ac }}\n}}",
                 sh.suffix(),
                 fields_decl(&fields),
                 opt_row("ar0")
             );
-            let _ = writeln!(p, "{ephemeral}action {apre}m_{lf}_{}({}) {{\n    map {lit_arg} as f {{\n        publish {cpre}V{f} {{ tag: tag, f: {} }}\n    }}\n}}\n", sh.suffix(), fields_decl(&fields), row_of("f"));
+            let _ = writeln!(p, "{ephemeral}action {apre}m_{lf}_{}({}) {{\n    map {lit_arg} as f {{\n        publish {cpre}V{f} {{ tag: tag, pt: 0, f: {} }}\n    }}\n}}\n", sh.suffix(), fields_decl(&fields), row_of("f"));
         }
     }
+    gen_tx(p, s);
+}
+
+// ---------------------------------------------------------------------------------------------
+// multi-command actions: several fact-changing commands and observations in ONE action, i.e. in
+// one uncommitted perspective on top of the committed facts
+
+/// Fact-changing steps one action can publish.
+pub const TX_STEPS: usize = 4;
+/// Full keys the in-action observation binds (point literals).
+pub const TX_QKEYS: usize = 4;
+/// Proper key prefixes (per prefix length) the in-action observation binds.
+pub const TX_QPREFIXES: usize = 2;
+
+/// One literal of the in-action observation. `key_slot` selects the bound keys: with all keys bound
+/// it is one of the `TX_QKEYS` full keys, with some bound one of the `TX_QPREFIXES` prefixes.
+/// `variant` selects which of the two value tuples (x, y) supplies the bound value fields.
+#[derive(Clone, Copy, Debug)]
+pub struct TxLit {
+    pub shape: Shape,
+    pub key_slot: usize,
+    pub variant: usize,
+    /// part of the short observation made after the steps that are not the last one
+    pub light: bool,
+}
+
+pub fn tx_literals(s: &Schema) -> Vec<TxLit> {
+    let mut out = Vec::new();
+    for sh in shapes(s) {
+        let slots = if sh.bound_keys == 0 {
+            1
+        } else if sh.bound_keys == s.keys.len() {
+            TX_QKEYS
+        } else {
+            TX_QPREFIXES
+        };
+        let variants = if sh.val_mask.is_some_and(|m| m != 0) { 2 } else { 1 };
+        for key_slot in 0..slots {
+            for variant in 0..variants {
+                out.push(TxLit { shape: sh, key_slot, variant, light: sh.bound_keys == 0 && sh.val_mask.is_none() });
+            }
+        }
+    }
+    out
+}
+
+/// Name of the action parameter that carries bound key field `j` of a literal.
+fn tx_key_param(s: &Schema, l: &TxLit, j: usize) -> String {
+    let n = s.keys[j].0;
+    if l.shape.bound_keys == s.keys.len() {
+        format!("qk{}_{n}", l.key_slot)
+    } else {
+        format!("qp{}x{}_{n}", l.shape.bound_keys, l.key_slot)
+    }
+}
+
+/// Parameters of the observation (after `tag`): full keys, prefixes, the two value tuples.
+pub fn tx_obs_params(s: &Schema) -> Vec<(String, Ty)> {
+    let mut p = Vec::new();
+    for slot in 0..TX_QKEYS {
+        for (n, t) in &s.keys {
+            p.push((format!("qk{slot}_{n}"), *t));
+        }
+    }
+    for b in 1..s.keys.len() {
+        for slot in 0..TX_QPREFIXES {
+            for (n, t) in &s.keys[..b] {
+                p.push((format!("qp{b}x{slot}_{n}"), *t));
+            }
+        }
+    }
+    for var in ["x", "y"] {
+        for (n, t) in &s.vals {
+            p.push((format!("{var}_{n}"), *t));
+        }
+    }
+    p
+}
+
+/// Parameters of one step: tag, op code, observation mode, key, old/created values, new values.
+pub fn tx_step_params(s: &Schema, i: usize) -> Vec<(String, Ty)> {
+    let mut p = vec![(format!("t{i}"), Ty::Int), (format!("o{i}"), Ty::Int), (format!("b{i}"), Ty::Int)];
+    for pre in ["k", "v", "w"] {
+        let fs = if pre == "k" { &s.keys } else { &s.vals };
+        for (n, t) in fs {
+            p.push((format!("{pre}{i}_{n}"), *t));
+        }
+    }
+    p
+}
+
+/// All parameters of `tx_<schema>` in declaration order.
+pub fn tx_params(s: &Schema) -> Vec<(String, Ty)> {
+    let mut p = Vec::new();
+    for i in 0..TX_STEPS {
+        p.extend(tx_step_params(s, i));
+    }
+    p.extend(tx_obs_params(s));
+    p
+}
+
+fn gen_tx(p: &mut String, s: &Schema) {
+    let f = s.name;
+    let lf = s.lower();
+    // ---- one step: publish the fact-changing command selected by `o` (0 = none)
+    let mut sp = vec![("t".to_string(), Ty::Int), ("o".to_string(), Ty::Int)];
+    for pre in ["k", "v", "w"] {
+        let fs = if pre == "k" { &s.keys } else { &s.vals };
+        for (n, t) in fs {
+            sp.push((format!("{pre}_{n}"), *t));
+        }
+    }
+    let pass = |pre: &str| -> String {
+        let fs = if pre == "k" { &s.keys } else { &s.vals };
+        fs.iter().map(|(n, _)| format!("{pre}_{n}: {pre}_{n}")).collect::<Vec<_>>().join(", ")
+    };
+    let v0 = format!("v_{n}: v_{n}", n = s.vals[0].0);
+    let mut arms: Vec<(usize, String)> = vec![
+        (1, format!("Mk{f} {{ tag: t, {}, {} }}", pass("k"), pass("v"))),
+        (2, format!("Del{f} {{ tag: t, {} }}", pass("k"))),
+        (3, format!("UpdAll{f} {{ tag: t, {}, {}, {} }}", pass("k"), pass("v"), pass("w"))),
+        (4, format!("UpdAny{f} {{ tag: t, {}, {} }}", pass("k"), pass("w"))),
+        (5, format!("UpdNone{f} {{ tag: t, {}, {} }}", pass("k"), pass("w"))),
+    ];
+    if s.vals.len() > 1 {
+        arms.push((6, format!("UpdPart{f} {{ tag: t, {}, {v0}, {} }}", pass("k"), pass("w"))));
+    }
+    arms.push((7, format!("CrUp{f} {{ tag: t, {}, {}, {} }}", pass("k"), pass("v"), pass("w"))));
+    arms.push((8, format!("CrDel{f} {{ tag: t, {}, {} }}", pass("k"), pass("v"))));
+    arms.push((9, format!("DelCr{f} {{ tag: t, {}, {} }}", pass("k"), pass("w"))));
+    arms.push((10, format!("UpDel{f} {{ tag: t, {}, {} }}", pass("k"), pass("w"))));
+    let _ = writeln!(p, "action txstep_{lf}({}) {{", fields_decl(&sp));
+    for (n, (code, cmd)) in arms.iter().enumerate() {
+        let _ = writeln!(p, "    {}if o == {code} {{\n        publish {cmd}\n    }}", if n == 0 { "" } else { "else " });
+    }
+    p.push_str("}\n\n");
+
+    // ---- the observation: every literal as query kinds (command + action context) and as map
+    let row_of = |var: &str| format!("{f}Row {{ {} }}", s.keys.iter().chain(s.vals.iter()).map(|(n, _)| format!("{n}: {var}.{n}")).collect::<Vec<_>>().join(", "));
+    let lits = tx_literals(s);
+    let mut obs_params = vec![("tag".to_string(), Ty::Int)];
+    obs_params.extend(tx_obs_params(s));
+    for (aname, light) in [("txobsl", true), ("txobsf", false)] {
+        let params = if light { vec![("tag".to_string(), Ty::Int)] } else { obs_params.clone() };
+        let _ = writeln!(p, "action {aname}_{lf}({}) {{", fields_decl(&params));
+        for (li, l) in lits.iter().enumerate() {
+            if light && !l.light {
+                continue;
+            }
+            let var = ["x", "y"][l.variant];
+            let keys: Vec<String> = s.keys.iter().enumerate().map(|(j, (n, _))| if j < l.shape.bound_keys { format!("{n}: {}", tx_key_param(s, l, j)) } else { format!("{n}: ?") }).collect();
+            let mut lit = format!("{f}[{}]", keys.join(", "));
+            if l.shape.val_mask.is_some() {
+                let vals: Vec<String> = s.vals.iter().enumerate().map(|(j, (n, _))| if l.shape.val_bound(j) { format!("{n}: {var}_{n}") } else { format!("{n}: ?") }).collect();
+                let _ = write!(lit, "=>{{{}}}", vals.join(", "));
+            }
+            // the fields the observation command of this shape expects (q_<field>)
+            let mut pass: Vec<String> = Vec::new();
+            for (j, (n, _)) in s.keys.iter().enumerate() {
+                if j < l.shape.bound_keys {
+                    pass.push(format!("q_{n}: {}", tx_key_param(s, l, j)));
+                }
+            }
+            for (j, (n, _)) in s.vals.iter().enumerate() {
+                if l.shape.val_bound(j) {
+                    pass.push(format!("q_{n}: {var}_{n}"));
+                }
+            }
+            let pass = if pass.is_empty() { String::new() } else { format!("{}, ", pass.join(", ")) };
+            let _ = writeln!(
+                p,
+                "    let r{li} = query {lit}\n    let o{li} = match r{li} {{ Some(g) => Some({}) None => None }}\n    let e{li} = exists {lit}\n    let c{li} = count_up_to 3 {lit}\n    publish P{f}_{} {{ tag: tag, pt: {}, {pass}ar: o{li}, ae: e{li}, ac: c{li} }}\n    map {lit} as f {{\n        publish PV{f} {{ tag: tag, pt: {}, f: {} }}\n    }}",
+                row_of("g"),
+                l.shape.suffix(),
+                2 * li,
+                2 * li + 1,
+                row_of("f")
+            );
+        }
+        p.push_str("}\n\n");
+    }
+
+    // ---- the multi-command action
+    let _ = writeln!(p, "action tx_{lf}({}) {{", fields_decl(&tx_params(s)));
+    let obs_args = tx_obs_params(s).iter().map(|(n, _)| n.clone()).collect::<Vec<_>>().join(", ");
+    for i in 0..TX_STEPS {
+        let mut a = vec![format!("t{i}"), format!("o{i}")];
+        for pre in ["k", "v", "w"] {
+            let fs = if pre == "k" { &s.keys } else { &s.vals };
+            for (n, _) in fs {
+                a.push(format!("{pre}{i}_{n}"));
+            }
+        }
+        let _ = writeln!(p, "    action txstep_{lf}({})\n    if b{i} == 1 {{\n        action txobsl_{lf}(t{i})\n    }} else if b{i} == 2 {{\n        action txobsf_{lf}(t{i}, {obs_args})\n    }}", a.join(", "));
+    }
+    p.push_str("}\n\n");
 }
